@@ -13,4 +13,7 @@ one() {
 }
 export -f one
 printf '%s\n' "${names[@]}" | xargs -P 4 -I{} bash -c 'one {}' > seeded/RESULTS.txt.new
-sort seeded/RESULTS.txt.new > seeded/RESULTS.txt; rm -f seeded/RESULTS.txt.new
+# merge: lines of seeds not re-run now are kept
+touch seeded/RESULTS.txt
+awk 'NR==FNR { seen[$1]=1; print; next } !($1 in seen)' seeded/RESULTS.txt.new seeded/RESULTS.txt | sort -V > seeded/RESULTS.txt.merged
+mv seeded/RESULTS.txt.merged seeded/RESULTS.txt; rm -f seeded/RESULTS.txt.new
